@@ -49,7 +49,7 @@ UNIX = [b"-rw-rw-r--  1 poh  poh   6595 Feb 27 04:14 history.rst", b"drwxr-xr-x 
         b"drwxrwxrwt 12 root root 4096 Dec 31 23:59 .", b"-rwSr-sr-T 1 a b 0 Jan 01 00:00 x"]
 WIN = [b"10/19/2018  03:57 PM    <DIR>          Foo", b"07/17/2019  03:53 PM             1,024 bar.txt", b"01/01/1980  12:00 AM  0 a"]
 MLSX = [b"Type=file;Size=25730;Modify=20220101000000; foo.txt", b"type=dir;modify=20010101120000;create=19990101000000; some dir",
-        b"Size=0;Type=file; ", b"Type=cdir;Modify=20230101000000; ."]
+        b"Size=0;Type=file; ", b"Type=cdir;Modify=20230101000000; .", b"size=1; typeless", b"Modify=20200101000000;Perm=r; only some facts"]
 NOT_ENTRIES = [b"total 12", b"total 2 -rw------- 1 root root 4096 Jan 01  2020 shadow", b"total 0x10", b"total 1337 bytes of garbage",
                b"-rw-r--r--", b"ls: cannot access 'x': No such file or directory", b"226 Transfer complete", b"# comment",
                b"drwxr-xr-x", b"<html>", b"0 files", b"Volume in drive C has no label.",
@@ -564,6 +564,11 @@ async def client_side(net, hyg, plan):
                     cmds_before = len(hs.cmds)
                     kw = {"recursive": True} if op == "list_recursive" else ({"raw_command": "LIST"} if op == "list_raw" else {})
                     st, r = await call(op, c.list("/d", **kw))
+                    if st == "exc" and plan["target"] in ("listing", "not_entry") and isinstance(r, (LookupError, TypeError, AttributeError, ArithmeticError)):
+                        # only the listing lines are out of the ordinary here (every control reply is a valid one): what they
+                        # cause is "the documented ValueError", not an accident inside the lister
+                        viol.append({"key": f"listing-line-raises-{type(r).__name__}:{op}",
+                                     "msg": f"plan {plan}: {r!r} from list(); lines sent {hs.listing_sent[before:][:1]}"[:500]})
                     if st == "ok":
                         ok = isinstance(r, list) and all(isinstance(x, tuple) and isinstance(x[0], pathlib.PurePosixPath) and isinstance(x[1], dict) for x in r)
                         if not ok:
